@@ -571,3 +571,33 @@ func TestVerifC10Decoder(t *testing.T) {
 }
 
 func TestVerifReplay(t *testing.T) { vstat.RunReplays(t) }
+
+func FuzzC10Decoder(f *testing.F) {
+	f.Add("<pre>\n0QUJD\n</pre>\n", uint8(0))
+	f.Add(boilerStart+"<pre>\n0\n</pre>\n"+boilerEnd, uint8(2))
+	f.Add("<pre>0<pre>", uint8(1))
+	f.Fuzz(func(t *testing.T, doc string, mode uint8) {
+		c := dcase{Pieces: []string{doc}}
+		if mode%4 == 1 {
+			c.Infinite = "A"
+		}
+		if mode%4 == 2 {
+			c.SrcReads = []int{1 + int(mode>>2)}
+		}
+		if err := vstat.Safely(func() error { return runDecoder(t, c) }); err != nil {
+			t.Fatalf("%s", uDec.Fail(c, "%v", err))
+		}
+	})
+}
+
+func FuzzC10Rapid(f *testing.F) {
+	f.Fuzz(rapid.MakeFuzz(func(rt *rapid.T) {
+		c := genCase(rt)
+		if c.Size > 40000 {
+			c.Size %= 40000
+		}
+		if err := vstat.Safely(func() error { return runArmor(nil, c) }); err != nil {
+			rt.Fatalf("%s", uArmor.Fail(c, "%v", err))
+		}
+	}))
+}
